@@ -23,6 +23,8 @@ def build_family(bases):
     for b in bases:
         n = b[1:]
         src += [
+            # the fourth base is no class but a Literal (it has no name a reference could use: wrapper forms only)
+            f"{b} = typing.Literal['r', 'w']" if b == "B4" else
             f"class Outer{n}:\n    class {b}: pass" if path[b] != b else f"class {b}: pass",
             f"NT{n} = NewType('NT{n}', {path[b]})",
             f"A{n} = TypeAliasType('A{n}', {path[b]})",
@@ -149,10 +151,13 @@ def replay_transitions(fam: Family, transitions):
     return n, violations, drift
 
 
-def random_traces(fam: Family, bases, forms, ntraces, maxlen, rng):
+LITERAL_FORMS = ["self", "newtype", "alias", "final", "nt_al", "nt_nt", "fin_nt"]
+
+
+def random_traces(fam: Family, bases, forms, ntraces, maxlen, rng, tid0=0):
     events, traces = [], {}
     allkeys = [{"b": b, "f": f} for b in bases for f in forms]
-    for tid in range(ntraces):
+    for tid in range(tid0, tid0 + ntraces):
         ctx = _new_ctx()
         stored = []
         ops = []
@@ -217,11 +222,14 @@ def run(ctx: Ctx) -> Outcome:
     transitions = [p for p in res.printed if isinstance(p, dict) and "op" in p]
     if len(transitions) < res.generated - 1:
         raise tlc.MachineryError(f"emitted {len(transitions)} transitions, TLC generated {res.generated}")
-    fam = Family(["B1", "B2", "B3"])
+    fam = Family(["B1", "B2", "B3", "B4"])
     nrep, v1, drift = replay_transitions(fam, transitions)
     # 3. code -> spec: random histories on the real class validated by the trace spec
     ntr, maxlen = (2000, 40) if quick else (20000, 40)
     events, traces = random_traces(fam, ["B1", "B2", "B3"], FORMS, ntr, maxlen, rng)
+    # a base that is a Literal, under the forms that wrap it (Final[Literal[..]], NewType / alias of it, wrappers of those)
+    ev4, tr4 = random_traces(fam, ["B4"], LITERAL_FORMS, ntr // 10, 12, rng, tid0=ntr)
+    events += ev4; traces.update(tr4)
     tres, rejects = tlc.validate_trace("Context_Trace", "Context_Trace.cfg", events)
     v2 = _violations_from_rejects(rejects, events, traces)
     drift += [p for p in tres.printed if isinstance(p, dict) and "drift" in p][:20]
@@ -236,7 +244,7 @@ def run(ctx: Ctx) -> Outcome:
                                                   tuple(sorted(k["f"] for k in t["memo"]))) for t in transitions}),
         "rule": "model: complete (stored, memo) state spaces; replay: every transition of the 1-base/10-form "
                 "model (distinct by source state, op, key); traces: random operation sequences of length<=40 "
-                "over 3 bases x 14 forms (incl. NewType over alias / NewType / string alias, Final[NewType]), non-trivial = at least 3 "
+                "over 3 class bases x 14 forms and a Literal base x 7 wrapper forms (incl. NewType over alias / NewType / string alias, Final[NewType]), non-trivial = at least 3 "
                 "operations, distinct by operation sequence",
         "model_runs": model_runs,
         "samples": [traces[0], transitions[len(transitions) // 2]],
@@ -249,7 +257,7 @@ def run(ctx: Ctx) -> Outcome:
 
 
 def replay(ctx: Ctx, rep: dict) -> Outcome:
-    fam = Family(["B1", "B2", "B3"])
+    fam = Family(["B1", "B2", "B3", "B4"])
     case = rep["case"]
     ops = case["ops"] if case["kind"] == "sequence" else case["prefix"] + [[case["op"], case["key"]]]
     c = _new_ctx()
